@@ -16,7 +16,7 @@ build's own `assert_eq!(fast, naive)`) and the independent naive-scan oracle of 
 Full statements (not proved here):
 
 * `findPrev_fast_eq_simple` : `s.ok → s.logRegion ≤ log2 gran → ByteMem m → MapConsistent env s m I →
-  alignDown a R ≥ a - limit + 1 ∨ load s m a = 0 → findPrevFast env s m a limit = findPrevSimple env s m a limit`
+  alignDown a R ≥ a - limit + 1 ∨ load s m a = 0 → findPrevFastOld env s m a limit = findPrevSimple env s m a limit`
   where `I` = regions `⌊(a-limit+1)/R⌋ … ⌊a/R⌋`, `MapConsistent` = (data mapped → metadata mapped) ∧
   (data unmapped at `r` → every readable field at or below `r` in `I` is zero).
 * `findNext_fast_eq_simple` : same with `I` = regions `⌊a/R⌋ … ⌈(a+limit)/R⌉-1`, no side condition.
@@ -160,11 +160,10 @@ returns an address outside the requested range in release builds. -/
 theorem findPrev_own_region_defect (env : MapEnv) (s : Spec) (m : Mem) (a limit : Nat)
     (hmap : env.mapped a = true) (hload : load s m a ≠ 0)
     (hlim : limit ≤ a % 2 ^ s.logRegion) :
-    findPrevFast env s m a limit = some (alignDown a (2 ^ s.logRegion)) ∧
-    findPrevSimple env s m a limit = none ∧
-    findPrev true env s m a limit = none := by
-  have hfast : findPrevFast env s m a limit = some (alignDown a (2 ^ s.logRegion)) := by
-    unfold findPrevFast; simp [hmap, hload]
+    findPrevFastOld env s m a limit = some (alignDown a (2 ^ s.logRegion)) ∧
+    findPrevSimple env s m a limit = none := by
+  have hfast : findPrevFastOld env s m a limit = some (alignDown a (2 ^ s.logRegion)) := by
+    unfold findPrevFastOld; simp [hmap, hload]
   have hmod : a % 2 ^ s.logRegion ≤ a := Nat.mod_le _ _
   have hsimple : findPrevSimple env s m a limit = none := by
     unfold findPrevSimple
@@ -173,10 +172,7 @@ theorem findPrev_own_region_defect (env : MapEnv) (s : Spec) (m : Mem) (a limit 
     unfold findPrevSimpleLoop
     have : ¬ (alignDown a (2 ^ s.logRegion) ≥ a - limit + 1) := by unfold alignDown; omega
     simp only [this, not_false_eq_true, if_true]
-  refine ⟨hfast, hsimple, ?_⟩
-  unfold findPrev
-  rw [hfast, hsimple]
-  by_cases h0 : limit = 0 <;> simp [h0]
+  exact ⟨hfast, hsimple⟩
 
 /-- the concrete failing input: 1 bit per 8-byte region, bit of region 1 set,
 `find_prev_non_zero_value(data_addr = 15, limit = 7)`. -/
@@ -184,7 +180,8 @@ theorem findPrev_own_region_defect_witness :
     let env : MapEnv := { mapped := fun _ => true, gran := 64 }
     let s : Spec := { start := 1000, logBits := 0, logRegion := 3 }
     let m : Mem := fun x => if x = 1000 then 2 else 0
-    findPrevFast env s m 15 7 = some 8 ∧ findPrevSimple env s m 15 7 = none ∧ findPrev true env s m 15 7 = none := by
+    findPrevFastOld env s m 15 7 = some 8 ∧ findPrevSimple env s m 15 7 = none ∧
+    findPrevFast env s m 15 7 = none := by
   decide
 
 /-- **The true part (quick-check case)**: when the own region's start is inside the limit, both
@@ -192,11 +189,11 @@ versions return it. -/
 theorem findPrev_own_region_partial (env : MapEnv) (s : Spec) (hs : s.ok) (m : Mem) (a limit : Nat) (ha1 : a + 1 < 2 ^ 64)
     (hmap : env.mapped a = true) (hmap' : env.mapped (alignDown a (2 ^ s.logRegion)) = true)
     (hload : load s m a ≠ 0) (hlim : a % 2 ^ s.logRegion < limit) (hle : limit ≤ a) :
-    findPrevFast env s m a limit = some (alignDown a (2 ^ s.logRegion)) ∧
+    findPrevFastOld env s m a limit = some (alignDown a (2 ^ s.logRegion)) ∧
     findPrevSimple env s m a limit = some (alignDown a (2 ^ s.logRegion)) := by
   have ha : a < 2 ^ 64 := by omega
-  have hfast : findPrevFast env s m a limit = some (alignDown a (2 ^ s.logRegion)) := by
-    unfold findPrevFast; simp [hmap, hload]
+  have hfast : findPrevFastOld env s m a limit = some (alignDown a (2 ^ s.logRegion)) := by
+    unfold findPrevFastOld; simp [hmap, hload]
   refine ⟨hfast, ?_⟩
   have hmod : a % 2 ^ s.logRegion ≤ a := Nat.mod_le _ _
   have hreg : (alignDown a (2 ^ s.logRegion)) >>> s.logRegion = a >>> s.logRegion := by
@@ -216,6 +213,27 @@ theorem findPrev_own_region_partial (env : MapEnv) (s : Spec) (hs : s.ok) (m : M
   have h1 : alignDown a (2 ^ s.logRegion) ≥ a - limit + 1 := by unfold alignDown; omega
   have h2 : alignDown a (2 ^ s.logRegion) < 2 ^ 64 - 1 := by unfold alignDown; omega
   simp [h1, h2, hmap', hload']
+
+/-- **After the `fix:` commit** the quick check applies the limit: in the case that used to differ,
+the repaired fast version and the naive version agree (both find nothing) … -/
+theorem findPrev_own_region_fixed_below (env : MapEnv) (s : Spec) (m : Mem) (a limit : Nat)
+    (hmap : env.mapped a = true) (hload : load s m a ≠ 0) (hlim : limit ≤ a % 2 ^ s.logRegion) :
+    findPrevFast env s m a limit = none ∧ findPrevSimple env s m a limit = none := by
+  refine ⟨?_, (findPrev_own_region_defect env s m a limit hmap hload hlim).2⟩
+  have hmod : a % 2 ^ s.logRegion ≤ a := Nat.mod_le _ _
+  have : ¬ (alignDown a (2 ^ s.logRegion) ≥ a - limit + 1) := by unfold alignDown; omega
+  unfold findPrevFast; simp [hmap, hload, this]
+
+/-- … and in the other case both still return the own region's start. -/
+theorem findPrev_own_region_fixed_within (env : MapEnv) (s : Spec) (hs : s.ok) (m : Mem) (a limit : Nat) (ha1 : a + 1 < 2 ^ 64)
+    (hmap : env.mapped a = true) (hmap' : env.mapped (alignDown a (2 ^ s.logRegion)) = true)
+    (hload : load s m a ≠ 0) (hlim : a % 2 ^ s.logRegion < limit) (hle : limit ≤ a) :
+    findPrevFast env s m a limit = some (alignDown a (2 ^ s.logRegion)) ∧
+    findPrevSimple env s m a limit = some (alignDown a (2 ^ s.logRegion)) := by
+  refine ⟨?_, (findPrev_own_region_partial env s hs m a limit ha1 hmap hmap' hload hlim hle).2⟩
+  have hmod : a % 2 ^ s.logRegion ≤ a := Nat.mod_le _ _
+  have : alignDown a (2 ^ s.logRegion) ≥ a - limit + 1 := by unfold alignDown; omega
+  unfold findPrevFast; simp [hmap, hload, this]
 
 /-- the forward search has no such case: its quick check and the naive walk agree on the own region. -/
 theorem findNext_own_region_partial (env : MapEnv) (s : Spec) (hs : s.ok) (m : Mem) (a limit : Nat) (ha : a < 2 ^ 64)
@@ -256,7 +274,7 @@ theorem findPrev_fast_ne_simple_without_mapConsistent :
     let env : MapEnv := { mapped := fun x => decide (x ≥ 1000) || decide (64 ≤ x ∧ x < 128) || decide (192 ≤ x ∧ x < 256), gran := 64 }
     let s : Spec := { start := 1000, logBits := 0, logRegion := 3 }
     let m : Mem := fun x => if x = 1001 then 2 else 0
-    findPrevFast env s m 200 150 = some 72 ∧ findPrevSimple env s m 200 150 = none := by
+    findPrevFastOld env s m 200 150 = some 72 ∧ findPrevSimple env s m 200 150 = none := by
   decide
 
 /-- A region-unaligned scan end (caller precondition violated): the fast scan stops before the region
